@@ -1831,6 +1831,40 @@ fn bytes_program(rng: &mut Rng) -> String {
     text
 }
 
+/// Long names: one to four definitions whose names are 30-70 bytes long and contain a few
+/// non-ASCII letters, and misspelt pure-ASCII uses of them whose edit distance sits around a third
+/// of the length - the region where "did you mean" logic changes its mind. Code that handles
+/// names bytewise, with fixed-size tables or with bit-parallel tricks, only meets bytes >= 0x80,
+/// positions >= 32 or 64 and distances near its threshold on programs like these (S88).
+fn long_names_program(rng: &mut Rng) -> String {
+    let letters = b"abcdefghijklmnopqrstuvwxyz_";
+    let foreign = ["é", "ß", "ö", "λ", "я", "ñ", "ü", "ç"];
+    let n = rng.range(1, 4);
+    let mut defs = String::new();
+    let mut uses: Vec<String> = vec![];
+    for d in 0..n {
+        let len = rng.range(30, 70);
+        let base: Vec<u8> = (0..len).map(|i| if i == 0 { b'a' + (d as u8) } else { letters[rng.below(letters.len())] }).collect();
+        // the name in scope: a few letters replaced by non-ASCII ones
+        let k1 = rng.range(1, 6);
+        let mut in_scope: Vec<String> = base.iter().map(|&b| (b as char).to_string()).collect();
+        for _ in 0..k1 {
+            let at = rng.range(1, len - 1);
+            in_scope[at] = (*rng.pick(&foreign)).to_owned();
+        }
+        // the misspelt use: pure ASCII, some more letters changed, total distance near len / 3
+        let want = (len / 3 + rng.range(0, 7)).saturating_sub(3 + 2 * k1);
+        let mut used = base.clone();
+        for _ in 0..want {
+            let at = rng.range(1, len - 1);
+            used[at] = if used[at] == b'x' { b'y' } else { b'x' };
+        }
+        defs.push_str(&format!("{} = {}\n", in_scope.concat(), d + 1));
+        uses.push(String::from_utf8(used).unwrap_or_default());
+    }
+    format!("{defs}{}\n", uses.join(" + "))
+}
+
 fn divergent_program(rng: &mut Rng) -> String {
     let k = rng.range(2, 7);
     let names = ["x", "y", "z", "u", "v", "w", "t"];
@@ -1888,7 +1922,8 @@ fn generate_base(rng: &mut Rng, corpus: &[String]) -> Case {
             let n = rng.range(2, 5);
             Case { family: "W3-multi-fault", source: typed_program(rng, n, false) }
         }
-        34..=39 => Case { family: "W3-many-errors", source: many_errors_program(rng) },
+        34..=38 => Case { family: "W3-many-errors", source: many_errors_program(rng) },
+        39 => Case { family: "W3-many-errors", source: if rng.chance(1, 2) { long_names_program(rng) } else { many_errors_program(rng) } },
         40..=50 => {
             let base = match rng.below(4) {
                 0 => base_from_corpus(rng),
